@@ -129,6 +129,10 @@ func batchSize(kind string) int {
 		return 6
 	case "bulk":
 		return 3
+	case "cacheinit":
+		return 2
+	case "idlefree":
+		return 2
 	}
 	return 1
 }
@@ -304,6 +308,10 @@ func deadCase(d runDesc) string {
 		return "CWait [] true"
 	case "cachekey", "bulk":
 		return "CShard [] [] [] true"
+	case "cacheinit":
+		return "CCacheInit [] true"
+	case "idlefree":
+		return "CIdleFree [] true"
 	}
 	return "CMeta [] true"
 }
@@ -357,6 +365,10 @@ func childMain(in, out string) {
 			r = runCacheKey(env, d, i)
 		case "bulk":
 			r = runBulk(env, d, i)
+		case "cacheinit":
+			r = runCacheInit(d)
+		case "idlefree":
+			r = runIdleFree(env, d, i)
 		default:
 			panic("unknown kind " + d.Kind)
 		}
